@@ -277,6 +277,27 @@ def _evaluate(sps, cache, dmg, order):
                 signac.Project(d).check()
             except Exception as e:  # noqa
                 bad("check-fails-after-repair", f"check() after repair(): {type(e).__name__}: {e}", "pass", repr(e))
+        # the session that ran repair() now refreshes the persistent cache: later sessions must still never be
+        # handed a state point whose hash differs from the id
+        try:
+            p4.update_cache()
+        except Exception:
+            pass
+        for n in sorted(os.listdir(ws)):
+            try:
+                val = signac.Project(d).open_job(id=n).statepoint()
+            except Exception:
+                continue
+            try:
+                ok = canon.job_id(canon.plain(val)) == n
+            except ValueError:
+                ok = True  # a non-finite float (damaged digits such as 1e345): outside the JSON value domain of the oracle
+            except Exception:
+                ok = False
+            if not ok:
+                bad("open-yields-wrong-statepoint", f"after repair() + update_cache() in one session, a fresh session's "
+                    f"open_job(id={n}).statepoint() returns {val!r} whose hash is not the id", "raise or hash == id", repr(val),
+                    via="after-repair-update-cache")
         after_payloads, _ = payloads(ws)
         if after_payloads != before_payloads:
             bad("repair-changes-data-files", "documents / data files differ after repair (modulo directory renames)",
